@@ -86,9 +86,10 @@ struct SendOracle {
         // nothing that was pending before is touched, whatever happens to the new request
         bool later = false, laterError = false;
         if (!invalid && g_sendMode == 2) {
-            later = vp_bool();
+            unsigned lk = (vp_cfg() >> 6) & 3;       // what the stream reports later: 0 nothing yet, 1 an error, 2 success (case split per instance)
+            later = lk != 0;
             if (later) {
-                laterError = vp_bool();
+                laterError = lk == 1;
                 if (laterError) g_pendingSend->finish(QXmppError { QString(), SendError::Disconnected });
                 else g_pendingSend->finish(SendSuccess { vp_bool() });
             }
@@ -121,7 +122,9 @@ extern "C" void h_send_packet()
 {
     Fixture f;
     g_sendMode = (vp_cfg() >> 4) & 3;
-    QString id = vpSymString(2), to = vpSymString(3);
+    // cfg bit 256: a request that is valid already for symbolic execution (lengths fixed: new id 2 units, pending ids 1 unit, addressee 2 units)
+    bool fixed = vp_cfg() & 256;
+    QString id = fixed ? vpFixString(2) : vpSymString(2), to = fixed ? vpFixString(2) : vpSymString(3);
     QXmppPacket pkt(QByteArray(), true);
     QXmppPromise<SendResult> pending; g_pendingSend = &pending;
     auto t = f.mgr->sendIq(std::move(pkt), id, to);
